@@ -79,6 +79,44 @@ Qed.
 Lemma utf8_error_valid l : utf8_valid l = true -> utf8_error l = None.
 Proof. intros H. unfold utf8_error. eapply utf8_err_valid; [exact H|lia]. Qed.
 
+(** * valid UTF-8 consists of bytes *)
+Ltac bool_hyps := repeat match goal with
+  | H : (_ && _) = true |- _ => apply andb_true_iff in H; destruct H
+  | H : (_ || _) = true |- _ => apply orb_true_iff in H; destruct H
+  | H : (_ <=? _) = true |- _ => apply N.leb_le in H
+  | H : (_ <? _) = true |- _ => apply N.ltb_lt in H
+  | H : (_ =? _) = true |- _ => apply N.eqb_eq in H
+  end.
+
+Lemma utf8_step_ok_bytes b rest n :
+  utf8_step b rest = (n, true) -> all_bytes (firstn n (b :: rest)) = true.
+Proof.
+  unfold utf8_step, is_cont, in_range.
+  destruct rest as [|r0 [|r1 [|r2 rest']]]; cbn [nth];
+  repeat match goal with
+         | |- context [if ?c then _ else _] => destruct c eqn:?
+         end; intros H; inversion H; subst; clear H;
+  cbn [firstn all_bytes forallb]; unfold is_byte; bool_hyps;
+  repeat (apply andb_true_iff; split); try reflexivity; try (apply N.ltb_lt; lia); try discriminate.
+Qed.
+
+Lemma valid_fuel_all_bytes f : forall l, valid_fuel f l = true -> all_bytes l = true.
+Proof.
+  induction f as [|f IH]; intros l H.
+  - destruct l; [reflexivity|discriminate].
+  - destruct l as [|b rest]; [reflexivity|].
+    cbn [valid_fuel] in H. destruct (utf8_step b rest) as [n ok] eqn:E.
+    apply andb_true_iff in H as [Hok Hv]. subst ok.
+    rewrite <- (firstn_skipn n (b :: rest)). unfold all_bytes. rewrite forallb_app.
+    apply andb_true_iff. split; [apply (utf8_step_ok_bytes _ _ _ E)|apply IH; exact Hv].
+Qed.
+
+Lemma utf8_valid_all_bytes l : utf8_valid l = true -> all_bytes l = true.
+Proof. apply valid_fuel_all_bytes. Qed.
+
+Lemma utf8_valid_str_ok l : utf8_valid l = true -> str_ok l.
+Proof. intros H. split; [apply utf8_valid_all_bytes|]; exact H. Qed.
+
 (** * tags *)
 Lemma tag_ascii k : ascii (tag k ++ [124]) = true.
 Proof. destruct k; vm_compute; reflexivity. Qed.
